@@ -9,7 +9,7 @@ from harness.props import c07, c10, c15
 
 RULE = (
     "seeded write sequences (<= 6 writes) to one target with modes drawn from a, w, x, '', A and overlapping nested dicts "
-    "(shared key pool, dict-vs-leaf conflicts, lists, int keys, strings that need quotes / get re-typed), in native, Foam and "
+    "(shared key pool, one dict object placed under several keys, dict-vs-leaf conflicts, lists, int keys, strings that need quotes / get re-typed), in native, Foam and "
     "JSON format; after every write DictReader.read(target) is compared with the fold of first-wins merge / replacement kept "
     "by the harness, and (native, Foam) the file bytes with the Coq model's write step; non-trivial = sequence contains an "
     "append onto an existing file with overlapping keys; distinct = distinct (format, sequence)"
@@ -57,11 +57,21 @@ def merge_spec(a, b):
     return out
 
 
-def spec_fold(seq, fmt):
+def source_dict(case, i):
+    """the dict handed to write i: case["alias"][i] = [(k1, k2), ...] makes d[k2] the very same object as d[k1]
+    (sections sharing one settings dict: ordinary Python, invisible in the repr of the dict)"""
+    d = copy.deepcopy(case["seq"][i][0])
+    for k1, k2 in (case.get("alias") or {}).get(i, []):
+        if k1 in d:
+            d[k2] = d[k1]
+    return d
+
+
+def spec_fold(case, fmt):
     state = None
     states = []
-    for d, mode in seq:
-        dn = native.normalise(d)
+    for i, (_, mode) in enumerate(case["seq"]):
+        dn = native.normalise(copy.deepcopy(source_dict(case, i)))
         if fmt == "foam":
             dn = c10.strip_us_spec(dn)
         if mode == "a" and state is not None:
@@ -78,13 +88,13 @@ EXT = {"native": "", "foam": ".foam", "json": ".json"}
 def oracle(case: dict):
     dictIO = native.dictio()
     fmt, seq = case["fmt"], case["seq"]
-    exp = spec_fold(seq, fmt)
+    exp = spec_fold(case, fmt)
     tmp = native.scratch_dir("c16_")
     try:
         target = tmp / ("target" + EXT[fmt])
         for i, (d, mode) in enumerate(seq):
             try:
-                dictIO.DictWriter.write(copy.deepcopy(d), target, mode=mode)
+                dictIO.DictWriter.write(source_dict(case, i), target, mode=mode)
                 got = gen.plain(dict(dictIO.DictReader.read(target)))
             except Exception as e:  # noqa: BLE001
                 return ("raises", f"write {i} (mode {mode!r}) / read raised {type(e).__name__}: {e}")
@@ -99,14 +109,16 @@ def oracle(case: dict):
 
 def shrink(case):
     seq = case["seq"]
+    al = case.get("alias") or {}
     for i in range(len(seq)):
-        yield {"fmt": case["fmt"], "seq": seq[:i] + seq[i + 1:]}
+        if not any(j >= i for j in al):
+            yield {"fmt": case["fmt"], "seq": seq[:i] + seq[i + 1:], "alias": al}
     for i, (d, m) in enumerate(seq):
         for d2 in gen.shrink_tree(d):
-            yield {"fmt": case["fmt"], "seq": seq[:i] + [(d2, m)] + seq[i + 1:]}
+            yield {"fmt": case["fmt"], "seq": seq[:i] + [(d2, m)] + seq[i + 1:], "alias": al}
 
 
-KNOWN_PREDICATES = {"C01-literal-overlap": lambda case, f: any(__import__("harness.props.c01", fromlist=["x"]).literal_overlap(d) for d, _ in case["seq"])}
+KNOWN_PREDICATES = {}
 
 
 def model_bytes(ctx, cases):
@@ -122,9 +134,10 @@ def model_bytes(ctx, cases):
         try:
             target = tmp / ("target" + EXT[fmt])
             mtext = None
-            for i, (d, mode) in enumerate(c["seq"]):
+            for i, (_, mode) in enumerate(c["seq"]):
+                d = source_dict(c, i)
                 try:
-                    dictIO.DictWriter.write(copy.deepcopy(d), target, mode=mode)
+                    dictIO.DictWriter.write(source_dict(c, i), target, mode=mode)
                     itext = target.read_text()
                 except Exception as e:  # noqa: BLE001
                     itext = None
@@ -138,10 +151,10 @@ def model_bytes(ctx, cases):
                     mtext_new = None
                 if itext is None or mtext_new is None:
                     if (itext is None) != (mtext_new is None):
-                        ctx.disagree("write step", {"fmt": fmt, "seq": c["seq"][: i + 1]}, ml[:300], "raise" if itext is None else itext[:300])
+                        ctx.disagree("write step", {"fmt": fmt, "seq": c["seq"][: i + 1], "alias": c.get("alias")}, ml[:300], "raise" if itext is None else itext[:300])
                     break
                 if _canon_float_text(mtext_new) != _canon_float_text(itext):
-                    ctx.disagree("write step bytes", {"fmt": fmt, "seq": c["seq"][: i + 1]}, mtext_new[:1500], itext[:1500])
+                    ctx.disagree("write step bytes", {"fmt": fmt, "seq": c["seq"][: i + 1], "alias": c.get("alias")}, mtext_new[:1500], itext[:1500])
                     break
                 mtext = itext
         finally:
@@ -169,7 +182,14 @@ def run(ctx):
         for j in range(rng.randrange(1, 7)):
             mode = rng.choice(["a", "a", "a", "w", "w", "x", "", "A"])
             seq.append((small_tree(rng, fmt=fmt), mode))
-        cases.append({"fmt": fmt, "seq": seq})
+        alias = {}
+        for j, (d, mode) in enumerate(seq):
+            subs = [k for k, v in d.items() if isinstance(v, dict)]
+            if subs and rng.random() < 0.35:
+                k1 = rng.choice(subs)
+                others = [k for k in KEYPOOL if k != k1 and (fmt != "json" or isinstance(k, str))]
+                alias[j] = [(k1, k2) for k2 in rng.sample(others, rng.randrange(1, 3))]
+        cases.append({"fmt": fmt, "seq": seq, "alias": alias})
     for c in cases:
         r = oracle(c)
         if r:
@@ -179,6 +199,8 @@ def run(ctx):
         ctx.count(("s", repr(c)), nt, c["fmt"], sample={"fmt": c["fmt"], "modes": modes, "first": c["seq"][0][0]} if nt and len(ctx.samples) < 4 else None)
         for m in modes:
             ctx.classes["mode:" + repr(m)] += 1
+        if c["alias"]:
+            ctx.classes["shared sub-dict object"] += 1
     model_bytes(ctx, cases[: ctx.n(120, 1500)])
     for f in ("native", "foam", "json"):
         if ctx.classes[f] == 0:
